@@ -103,7 +103,7 @@ partial def matchCases : List String → Option (List (String × String) × List
   | _ => none
 
 def endsExpr : Option Tok → Bool
-  | some (.atom _) | some .rp | some (.post _) => true
+  | some (.atom _) | some .rp | some (.post _ _) => true
   | _ => false
 
 /-- words → model tokens. -/
@@ -144,7 +144,7 @@ partial def group : List String → List Tok → Tab → Option (List Tok × Tab
           | some (as, r) =>
             let (tb, i) := intern tab ⟨"( " ++ " , ".intercalate as ++ (if as.isEmpty then ")" else " )"),
               "(call ", String.join (as.map fun a => " " ++ a) ++ ")"⟩
-            push (.post i) r tb
+            push (.post i false) r tb
           | none => none
         else push .lp rest tab
     else if w == "." then
@@ -152,7 +152,7 @@ partial def group : List String → List Tok → Tab → Option (List Tok × Tab
       | n :: r =>
         if isWordAtom n && !isNum n then
           let (tb, i) := intern tab ⟨s!". {n}", "(. ", s!" {n})"⟩
-          push (.post i) r tb
+          push (.post i true) r tb
         else none
       | _ => none
     else if w == "{" then
@@ -176,7 +176,7 @@ partial def group : List String → List Tok → Tab → Option (List Tok × Tab
 def tokText (tab : Tab) : Tok → String
   | .lp => "(" | .rp => ")" | .bang => "!"
   | .op o => opText o
-  | .atom a | .post a | .kwIf a | .kwMatch a | .lam a => ((tab[a]?).map (·.text)).getD "?"
+  | .atom a | .post a _ | .kwIf a | .kwMatch a | .lam a => ((tab[a]?).map (·.text)).getD "?"
 
 def ent (tab : Tab) (i : Nat) : Entry := (tab[i]?).getD ⟨"?", "?", "?"⟩
 
@@ -184,7 +184,7 @@ partial def dump (tab : Tab) : Expr → String
   | .atom a => (ent tab a).pre
   | .ifElse k => (ent tab k).pre
   | .matchE k => (ent tab k).pre
-  | .post e p => (ent tab p).pre ++ dump tab e ++ (ent tab p).suf
+  | .post e p _ => (ent tab p).pre ++ dump tab e ++ (ent tab p).suf
   | .lambda k b => (ent tab k).pre ++ dump tab b ++ (ent tab k).suf
   | .unary .not e => "(! " ++ dump tab e ++ ")"
   | .unary .neg e => "(neg " ++ dump tab e ++ ")"
